@@ -3,6 +3,7 @@ import KojenVerif.Lemmas.EngineFilter
 import KojenVerif.Lemmas.EngineSig
 import KojenVerif.Lemmas.EnginePgt
 import KojenVerif.Lemmas.EngineNestedWF
+import KojenVerif.Lemmas.EngineProto
 import KojenVerif.Lemmas.Str
 /-
   C16 — template engine: per-element blocks expand once per element, in model order.
@@ -27,8 +28,11 @@ import KojenVerif.Lemmas.Str
   per-state-transition block is expanded once per state (source states in table order, then
   target-only states), inside once per event of that state in first-appearance order, inside once per
   transition of the pair, the state's and the event's names substituted on the way down.
-  Claimed through the correspondence and the reference expander only, not yet proved: struct / message
-  blocks, signature / member / documentation / attribute lines (see DESIGN.md 6/C16 staging).
+  Struct / protocol-message / message blocks whose lines carry name and counter tags are covered by
+  `C16_struct_message_block`.
+  Claimed through the correspondence and the reference expander only, not yet proved: lines with
+  signature / member / documentation / attribute / payload tags (their text comes from the language
+  back ends, C09 / C10 / C12) (see DESIGN.md 6/C16 staging).
 
   Hypotheses are decidable conditions on the concrete template and model, evaluated by the
   driver on every generated case: `Chunk.OK` (a line is a delimiter of the pass exactly when
@@ -57,6 +61,15 @@ theorem C16_once_per_element_in_order (env : Env) (ht : EnvTotal env) (items : L
     innerExpand env false items (body.map Spec.BItem.render) [] =
       some ((((enumFrom 0 items).map (fun p => Spec.bodyFor (elemDict p.2 p.1) body)).flatten).map Spec.bitemText) :=
   innerExpand_names env ht items body h
+
+/-- **Per-struct / per-protocol-message / per-message block.**  The same rule for the interface's
+    element lists: once per element in list order, `STRUCTNAME` / `MSGNAME` / `PROTOMSGNAME` (and their
+    camel-case variants) replaced by the element's name, counters as above. -/
+theorem C16_struct_message_block (env : Env) (ht : EnvTotal env) (items : List Str) (body : List Spec.BItem)
+    (h : ∀ p ∈ enumFrom 0 items, ∀ i ∈ body, BodyLineOKP p.2 p.1 i) :
+    innerExpand env true items (body.map Spec.BItem.render) [] =
+      some ((((enumFrom 0 items).map (fun p => Spec.bodyFor (protoDict p.2 p.1) body)).flatten).map Spec.bitemText) :=
+  innerExpand_proto env ht items body h
 
 /-- **Per-action-signature block.** Once per (action, event) pair, in the given order — the
     table's pairs in order of first appearance (`Table.actionSigs`, duplicate-free) —, every
@@ -194,6 +207,13 @@ def exFile : List Line :=
   [T "head\n", T "<<<PER_STATE_BEGIN>>>\n"] ++ exBody.map Spec.BItem.render ++ [T "<<<PER_STATE_END>>>\n", T "tail\n"]
 example : pairExpand (T "<<<PER_STATE_BEGIN>>>") (T "<<<PER_STATE_END>>>") (innerExpand exEnv false [T "IdleNow", T "Run"]) exFile =
     some [T "head\n", T "  s IdleNow idleNow idle_now 0a\n", T "  s Run run run 1b\n", T "tail\n"] := by decide
+def exProtoBody : List Spec.BItem :=
+  [.line [.lit (T "struct "), .tag (T "STRUCTNAME") none, .lit (T " "), .tag (T "structName") none, .lit (T "; // "), .tag (T "NUM") none],
+   .blank (T " ")]
+example : ∀ p ∈ enumFrom 0 [T "Point", T "Size"], ∀ i ∈ exProtoBody, BodyLineOKP p.2 p.1 i :=
+  blockOKPB_sound _ _ (by decide)
+example : innerExpand exEnv true [T "Point", T "Size"] (exProtoBody.map Spec.BItem.render) [] =
+    some [T "struct Point point; // 0\n", T "struct Size size; // 1\n"] := by decide
 example : filterNewlines [T "a\n", T "\n", T "  \n", T "\t\n", T "\n", T " \n", T "b\n"] =
     [T "a\n", T "\n", [], T "\t\n", T "\n", [], T "b\n"] := by decide
 
